@@ -608,6 +608,10 @@ pub fn exec(q: &mut AnyQ, m: &mut Model, st: &Step, cx: &mut Ctx) {
             match &r {
                 Ok(()) => {
                     cx.probe("try_reserve_ok");
+                    // with a persistent fault every allocation from the k-th on fails: whatever
+                    // asked for one of them cannot have got its memory, so Ok hides a failure
+                    // (a one-shot fault may legitimately be recovered from by a retry)
+                    expect!(cx, C17, "try_reserve_swallowed_failure", !(failed > 0 && fault.map_or(false, |f| f.1)), "try_reserve({}) returned Ok although {} of its allocations failed (persistent allocation failure)", n, failed);
                     let need = q.len().checked_add(*n);
                     expect!(cx, C17, "try_reserve_ok_capacity", need.map_or(false, |x| q.capacity() >= x), "try_reserve({}) returned Ok but capacity()={} < len()+n={:?}", n, q.capacity(), need);
                     expect!(cx, C17, "try_reserve_ceiling", n.saturating_mul(8) <= crate::alloc::CEILING, "try_reserve({}) returned Ok above the simulated memory ceiling", n);
